@@ -236,18 +236,47 @@ func playHand(h *Hand, mon Monitor) {
 		}
 	}()
 	c := h.C
-	g := pokerface.NewPokerFace().NewGame(c.Opts())
+	var g pokerface.Game
+	startFresh := func() (pokerface.Game, error) {
+		f := pokerface.NewPokerFace().NewGame(c.Opts())
+		if err := f.Start(); err != nil {
+			return nil, err
+		}
+		h.Shuffled = append([]string{}, f.GetState().Meta.Deck...)
+		// pin the deck: nothing has been dealt before the first ReadyForAll
+		if len(c.Deck) != len(f.GetState().Meta.Deck) {
+			panic("harness: deck length mismatch")
+		}
+		copy(f.GetState().Meta.Deck, c.Deck)
+		return f, nil
+	}
+	var err error
+	switch {
+	case c.Reuse != 0 && c.Prev != nil:
+		// an engine object that already held (part of) another hand
+		old := playPrefix(c.Prev, c.PrevSteps)
+		h.Rep.Inc("reused_game_objects")
+		if c.Reuse == 1 {
+			old.ApplyOptions(c.Opts())
+			g = old
+			if err = g.Start(); err == nil {
+				h.Shuffled = append([]string{}, g.GetState().Meta.Deck...)
+				copy(g.GetState().Meta.Deck, c.Deck)
+			}
+		} else {
+			var f pokerface.Game
+			if f, err = startFresh(); err == nil {
+				old.LoadState(cloneGS(f.GetState()))
+				g = old
+			}
+		}
+	default:
+		g, err = startFresh()
+	}
 	h.G = g
-	if err := g.Start(); err != nil {
+	if err != nil {
 		mon.Stuck(h, "start-refused: "+err.Error())
 		return
-	}
-	h.Shuffled = append([]string{}, g.GetState().Meta.Deck...)
-	// pin the deck: nothing has been dealt before the first ReadyForAll
-	if len(c.Deck) == len(g.GetState().Meta.Deck) {
-		copy(g.GetState().Meta.Deck, c.Deck)
-	} else {
-		panic("harness: deck length mismatch")
 	}
 	h.Rep.Inc("hands")
 	mon.Begin(h)
@@ -380,6 +409,35 @@ func playHand(h *Hand, mon Monitor) {
 		refusals = 0
 	}
 	mon.Stuck(h, "step-bound-exceeded")
+}
+
+// playPrefix plays the first steps of another hand with a fixed simple policy and returns the used game object
+func playPrefix(c *Cfg, steps int) pokerface.Game {
+	g := pokerface.NewPokerFace().NewGame(c.Opts())
+	if g.Start() != nil {
+		return g
+	}
+	copy(g.GetState().Meta.Deck, c.Deck)
+	for i := 0; i < steps; i++ {
+		s := g.GetState()
+		ev := s.Status.CurrentEvent
+		var op Op
+		switch ev {
+		case "ReadyRequested", "AnteRequested", "BlindsRequested", "RoundClosed":
+			op = Op{Name: expectedTableOp(ev), Seat: -1}
+		case "RoundStarted":
+			if cur := s.Status.CurrentPlayer; cur < 0 || cur >= len(s.Players) || len(s.Players[cur].AllowedActions) == 0 {
+				return g
+			}
+			op = fallbackAction(s)
+		default:
+			return g
+		}
+		if applyOp(g, op) != nil {
+			return g
+		}
+	}
+	return g
 }
 
 func firstLines(s string, n int) string {
